@@ -95,7 +95,9 @@ def analyse(labels_subs, first_in_cds):
     starter = next((i for i, l in core if l in STARTERS), None)
     loader = loaders[0] if loaders else None
     is_pks = any(l.startswith("PKS") or l in PKS_SPECIFIC for l in labels)
-    trans_at = bool(is_pks and starter is not None and loader is None
+    # a trans-AT module is a PKS module: its starter is a ketosynthase (documented as "specifically Trans-AT-KS", with the docking
+    # domain as the fallback for an inexact KS subtype) - a condensation domain next to a PKS_PP carrier is not one
+    trans_at = bool(is_pks and starter is not None and loader is None and labels[starter] in mi.KETOSYNTHASES
                     and (labels_subs[starter][1] == "Trans-AT-KS" or "Trans-AT_docking" in labels))
     if len(explicit) > 1:
         probs.append("two-starters")
@@ -282,6 +284,12 @@ def double_transporter_strings(tier):
                 for prefix in prefixes:
                     for suffix in suffixes:
                         yield prefix + [cp1, cp2] + middle_tail + suffix
+                    # the exception repeated: a further carrier protein followed by a listed pair again (and once more)
+                    for case2 in sorted(mi.DOUBLE_TRANSPORTER_CASES):
+                        again = [cp2] + [(label, None) for label in case2]
+                        yield prefix + [cp1, cp2] + middle_tail + again
+                        yield prefix + [cp1, cp2] + middle_tail + again + again
+                        yield prefix + [cp1, cp2] + middle_tail + again + [("Thioesterase", None)]
 
 
 def double_transporter_modules():
